@@ -60,6 +60,10 @@ class InjectedFault(BaseException):
     pass
 
 
+def _noop():
+    return None
+
+
 class CustomBase(BaseException):
     pass
 
@@ -364,6 +368,64 @@ class ThreadProg:
             with contextlib.suppress(BaseException):
                 self.block(st[1])
             self.probe_hit("foreign_suppress_block")
+        elif op == "deep":
+            # the enclosed statement issued with almost no interpreter stack left (k frames of head-room): whatever
+            # runs out of stack where, the register must be back at its value once the RecursionError has unwound
+            k, inner = st[1], st[2]
+            before = self.obs.read()
+            model_before = self.model
+            depth_before = self.depth
+            d, f = 0, sys._getframe()
+            while f is not None:
+                d += 1
+                f = f.f_back
+            n = sys.getrecursionlimit() - d - k
+
+            lean = len(st) > 3 and st[3] == "lean" and inner[0] == "with"
+            if lean:
+                # nothing but the context manager runs down there: the object is prepared up here ("created in
+                # advance"), the bottom frame executes `with cm: pass` (or calls the decorated no-op), so that the
+                # frames __enter__ and __exit__ need are the only ones that matter
+                spec, how, slot = inner[1], inner[2], inner[4]
+                try:
+                    if slot is not None and slot in self.slots and slot not in self.active:
+                        cm = self.slots[slot][0]
+                    else:
+                        cm = self.make_cm(spec, how)
+                    target = cm(_noop) if how == "decorated" else None
+                except (TypeError, AttributeError, KeyError, NotImplementedError):
+                    self.stat("api_unsupported")
+                    return
+
+                def bottom():
+                    if target is not None:
+                        target()
+                    else:
+                        with cm:
+                            pass
+
+                self.stat("deep_lean_statements")
+            else:
+                def bottom():
+                    return self.step(inner)
+
+            def down(m):
+                if m <= 0:
+                    return bottom()
+                return down(m - 1)
+
+            self.stat("deep_stack_statements")
+            try:
+                down(max(n, 0))
+            except RecursionError:
+                self.stat("deep_statement_ran_out_of_stack")
+                self.fault("RecursionError_unwound_through_contexts")
+                self.model = model_before
+                self.depth = depth_before
+                now = self.obs.read()
+                if not self.same(now, before):
+                    self.violation("exit-restore", "recursion-error|" + fields_differing(now, before), on_entry=hex(before),
+                                   after_unwinding=hex(now), head_room=k)
         elif op == "read":
             # the public read-only accessors, called as user code would call them inside and between bodies.
             # They are workload, not oracle: the property does not speak about them (on the unchanged tree
@@ -560,6 +622,8 @@ def gen_block(rng, kn, depth, budget):
             w = ["with", gen_spec(rng), how, gen_block(rng, kn, depth + 1, budget), slot]
             if slot is not None and rng.random() < 0.25:
                 w.append("reenter")
+            if kn.get("deep") and rng.random() < 0.15:
+                w = ["deep", rng.randint(2, 40), w] if rng.random() < 0.5 else ["deep", rng.randint(0, 8), w, "lean"]
             out.append(w)
         elif r < kn["p_with"] + 0.18:
             out.append(["probe"])
@@ -622,6 +686,7 @@ def make_case(seed, tier="quick", nthreads=None, sweep=False):
         "slots": kn_rng.randint(1, 3),
         "poke": mode == "arith" and kn_rng.random() < 0.4,
         "gc": kn_rng.random() < 0.5,
+        "deep": nthreads == 1 and kn_rng.random() < 0.3,
     }
     threads = []
     for t in range(nthreads):
@@ -659,6 +724,8 @@ def get_obs():
 def _count_with(block):
     n = 0
     for st in block:
+        if st[0] == "deep":
+            st = st[2]
         if st[0] == "with":
             n += 1 + _count_with(st[3])
         elif st[0] in ("try", "suppress"):
@@ -876,6 +943,14 @@ def _variants(case):
                 cur = cur[p]
             del cur[path[-1]]
             yield c
+        for path, st in nodes:  # a statement issued from a deep stack -> the plain statement
+            if st[0] == "deep":
+                c = copy.deepcopy(case)
+                cur = c["threads"][t]["block"]
+                for p in path[:-1]:
+                    cur = cur[p]
+                cur[path[-1]] = copy.deepcopy(st[2])
+                yield c
         for path, st in nodes:  # unwrap node (replace by its body)
             if st[0] in ("with", "try", "suppress"):
                 c = copy.deepcopy(case)
@@ -1001,6 +1076,9 @@ def _nullify(block):
     noise of the interpreter / harness itself."""
     block[:] = [st for st in block if st[0] not in ("probe", "flags", "poke", "gc", "drop", "read")]
     for st in block:
+        if st[0] == "deep":
+            _nullify([st[2]])
+            continue
         if st[0] == "with":
             st[1].clear()
             st[1]["FZ"] = None
